@@ -558,10 +558,46 @@ theorem scBuild_refused (c : CodecImpl) (ts pi : String) (ba : Int) (x : Frame)
 theorem readReal_build (x : PMInput) (o : PMObject) (h : build x = .ok o) (hel : o.element = "PixelData")
     (hw : CellsWF x) (f : Nat) (hf : f < x.n * x.m) (sel : Selector) :
     readReal o f sel =
-      (select (x.maps (f % x.m)) sel).bind (fun mp => applyMapping mp ((plane x (f / x.m) (f % x.m)).map cellValue)) := by
+      (select (x.maps (f % x.m)) sel).bind (fun mp => applyOnRead mp ((plane x (f / x.m) (f % x.m)).map cellValue)) := by
   unfold readReal
   rw [readStoredFrame_build x o h hel hw f hf, attachedMappings_build x o h f hf]
   rfl
+
+theorem applyOnRead_of_not_single (mp : Mapping) (vals : List Int) (h : mp.singleEntryLut = false) :
+    applyOnRead mp vals = applyMapping mp vals := by
+  unfold applyOnRead; simp [h]
+
+theorem applyOnRead_single (mp : Mapping) (vals : List Int) (h : mp.singleEntryLut = true) :
+    applyOnRead mp vals = .error .type := by
+  unfold applyOnRead; simp [h]
+
+/-- what was selected is one of the mappings -/
+theorem select_mem (ms : List Mapping) (sel : Selector) (mp : Mapping) (h : select ms sel = .ok mp) : mp ∈ ms := by
+  cases sel with
+  | index k =>
+    simp only [select] at h
+    by_cases h1 : 0 ≤ k ∧ k < (ms.length : Int)
+    · rw [if_pos h1] at h
+      cases hg : ms[k.toNat]? with
+      | none => rw [hg] at h; cases h
+      | some m => rw [hg] at h; cases h; exact List.mem_of_getElem? hg
+    · rw [if_neg h1] at h
+      by_cases h2 : -(ms.length : Int) ≤ k ∧ k < 0
+      · rw [if_pos h2] at h
+        cases hg : ms[(k + (ms.length : Int)).toNat]? with
+        | none => rw [hg] at h; cases h
+        | some m => rw [hg] at h; cases h; exact List.mem_of_getElem? hg
+      · rw [if_neg h2] at h; cases h
+  | label s =>
+    simp only [select] at h
+    cases hg : ms.find? (fun m => m.label == s) with
+    | none => rw [hg] at h; cases h
+    | some m => rw [hg] at h; cases h; exact List.mem_of_find?_eq_some hg
+  | unit u =>
+    simp only [select] at h
+    cases hg : ms.find? (fun m => m.unit == u) with
+    | none => rw [hg] at h; cases h
+    | some m => rw [hg] at h; cases h; exact List.mem_of_find?_eq_some hg
 
 /-- refusal of the constructor, from the admission logic -/
 theorem build_refused (x : PMInput) (h : ¬ ∃ attr ba bs hb pr, Admitted x attr ba bs hb pr) : ∃ e, build x = .error e := by
